@@ -80,6 +80,8 @@ def check(rep, an, tier):
         entry = f"ReceptorEstimator.{meth}"
         quantisation(rep, res, entry)
         tolerances(rep, res, entry)
+        # a twin problem is set up by re-registering K / baseline / bounds on the same object: queries must not keep derived state
+        R.rule_effect_free(rep, res, entry)
         for ev in res.events("call"):
             fn = ev.d["callee"]
             if fn.module.name == CC.CONVEX and ev.fn.cls and fn.name in ("range_of_solutions", "in_hull_from_A"):
